@@ -13,10 +13,10 @@ import (
 	"encoding/json"
 	"flag"
 	"fmt"
-	"io"
 	goast "go/ast"
 	goparser "go/parser"
 	gotoken "go/token"
+	"io"
 	"os"
 	"os/exec"
 	"path/filepath"
@@ -130,10 +130,27 @@ func (c *expCache) Find(dir, pkgPath string) (io.ReadCloser, error) {
 	return os.Open(f)
 }
 
+// curRelBase: cl.Config.RelativeBase of the compile in progress (compiles are sequential).
+var curRelBase = "/"
+
 var (
 	cache     = &expCache{}
 	nFallback int
 )
+
+func (c *pkgCase) dir() string {
+	if c.Dir != "" {
+		return c.Dir
+	}
+	return "/pkg"
+}
+
+func (c *pkgCase) relBase() string {
+	if c.Dir != "" {
+		return c.RelBase
+	}
+	return "/"
+}
 
 func newCtx() *build.Context {
 	impOnce.Do(func() {
@@ -143,7 +160,7 @@ func newCtx() *build.Context {
 		imp.SetCache(cache)
 	})
 	ctx := build.NewContext(imp, impFset)
-	ctx.LoadConfig = func(c *cl.Config) { c.NoFileLine = false; c.RelativeBase = "/" }
+	ctx.LoadConfig = func(c *cl.Config) { c.NoFileLine = false; c.RelativeBase = curRelBase }
 	return ctx
 }
 
@@ -156,10 +173,11 @@ func compileDir(c *pkgCase, order []string) (res string) {
 	}()
 	fmap := map[string]string{}
 	for n, d := range c.Files {
-		fmap["/pkg/"+n] = d
+		fmap[c.dir()+"/"+n] = d
 	}
-	mfs := memfs.New(map[string][]string{"/pkg": order}, fmap)
-	out, err := newCtx().BuildFSDir(mfs, "/pkg")
+	mfs := memfs.New(map[string][]string{c.dir(): order}, fmap)
+	curRelBase = c.relBase()
+	out, err := newCtx().BuildFSDir(mfs, c.dir())
 	if err != nil {
 		return "ERR\n" + err.Error()
 	}
@@ -177,10 +195,10 @@ func compileFiles(c *pkgCase, order []string) (res string) {
 	fmap := map[string]string{}
 	var list []string
 	for _, n := range order {
-		fmap["/pkg/"+n] = c.Files[n]
-		list = append(list, "/pkg/"+n)
+		fmap[c.dir()+"/"+n] = c.Files[n]
+		list = append(list, c.dir()+"/"+n)
 	}
-	mfs := memfs.New(map[string][]string{"/pkg": order}, fmap)
+	mfs := memfs.New(map[string][]string{c.dir(): order}, fmap)
 	newCtx()
 	pkgs, err := parser.ParseFSEntries(impFset, mfs, list, parser.Config{ClassKind: build.ClassKind})
 	if err != nil {
@@ -195,7 +213,7 @@ func compileFiles(c *pkgCase, order []string) (res string) {
 	if p, ok := pkgs["main"]; ok {
 		pkg = p
 	}
-	conf := &cl.Config{Fset: impFset, Importer: imp, RelativeBase: "/", LookupClass: func(ext string) (*cl.Project, bool) {
+	conf := &cl.Config{Fset: impFset, Importer: imp, RelativeBase: c.relBase(), LookupClass: func(ext string) (*cl.Project, bool) {
 		return lookupClass(ext)
 	}}
 	out, err := cl.NewPackage("", pkg, conf)
@@ -328,7 +346,11 @@ func caseLine(c *pkgCase) string {
 
 // pkgLine is the replayable form of any case: the files themselves.
 func pkgLine(c *pkgCase) string {
-	b, _ := json.Marshal(c.Files)
+	b, _ := json.Marshal(struct {
+		Files   map[string]string `json:"files"`
+		Dir     string            `json:"dir,omitempty"`
+		RelBase string            `json:"relbase,omitempty"`
+	}{c.Files, c.Dir, c.RelBase})
 	return "pkg\t" + vh.Hex(b)
 }
 
@@ -400,7 +422,7 @@ func main() {
 			fs[1] = strings.TrimSpace(fs[1])
 		}
 		b, _ := vh.UnHex(fs[1])
-		json.Unmarshal(b, &c.Files)
+		json.Unmarshal(b, c) // files, dir, relbase
 		cases = []*pkgCase{c}
 	} else {
 		r := vh.NewRand(f.Seed)
@@ -491,6 +513,9 @@ func main() {
 		}
 		first := base[fmt.Sprintf("%d/dir", c.ID)]
 		o.Count("kind_" + c.Kind)
+		if c.Dir != "" {
+			o.Count("config_" + c.Cfg)
+		}
 		for k, v := range c.Stats {
 			o.Stats[k] += v
 		}
